@@ -119,6 +119,29 @@ CASES = [
     ("same", "R3 stored refactor notes/refactors/R3.diff (hoisted local and chained assignments in __init__, any() in "
      "__bool__, early return in to_weeks, isinstance with a tuple, renamed locals)",
      [("PATCH", "/verif/notes/refactors/R3.diff")]),
+    ("same", "T4 stored refactor notes/refactors/T4.diff (__hash__ key as `nominal + (seconds,)` with a conditional "
+     "expression of tuples, // and % on a hoisted local, renamed locals in __mul__, early returns in __eq__)",
+     [("PATCH", "/verif/notes/refactors/T4.diff")]),
+    ("break", "B18 T4-style __hash__ with the key components in the wrong order", [
+        ("""        if self.get_is_in_weeks():
+            return hash((0, 0, self._get_non_nominal_seconds()))
+        return hash(
+            (self._years, self._months, self._get_non_nominal_seconds()))
+""", """        nominal = (
+            (0, 0) if self.get_is_in_weeks()
+            else (self._years, self._months))
+        return hash((self._get_non_nominal_seconds(),) + nominal)
+""")]),
+    ("break", "B19 T4-style __hash__ whose week-form key is (0, 1)", [
+        ("""        if self.get_is_in_weeks():
+            return hash((0, 0, self._get_non_nominal_seconds()))
+        return hash(
+            (self._years, self._months, self._get_non_nominal_seconds()))
+""", """        nominal = (
+            (0, 1) if self.get_is_in_weeks()
+            else (self._years, self._months))
+        return hash(nominal + (self._get_non_nominal_seconds(),))
+""")]),
     ("break", "B1 wrong constant: months counted as DAYS_IN_WEEK days in get_days_and_seconds", [
         ("""                    self._months * CALENDAR.ROUGH_DAYS_IN_MONTH +
 """, """                    self._months * CALENDAR.DAYS_IN_WEEK +
